@@ -34,11 +34,11 @@ def model(c, runs):
                          kw={"timeout": 800, "workers": 6},
                          cfg=cfg_text(constants=dict(BASE, OpsA={"send", "sendall", "send_err"}, OpsB={"recv", "recv_err"}, MaxCalls=2),
                                       invariants=INVS)))
-        for (w, p, t) in ((2, 3, 0), (4, 2, 1), (5, 3, 0), (6, 1, 2)):
+        for (w, p, t) in ((2, 3, 0), (4, 2, 1), (3, 1, 0), (5, 3, 2)):
             jobs.append(dict(name="window %d, packet %d, threshold %d, three timeout modes" % (w, p, t), module="Channel",
                              kw={"timeout": 800, "workers": 4},
                              cfg=cfg_text(constants=dict(BASE, OpsA={"sendall", "sendall_err"}, OpsB={"recv", "recv_err"}, W0=w, MaxPkt=p,
-                                                         PeerMax=p, Thresh=t, SendN=w + 2, ReadSizes={2}, MaxCalls=1,
+                                                         PeerMax=p, Thresh=t, SendN=w + 1, ReadSizes={2}, MaxCalls=1,
                                                          Modes={"block", "timed", "nonblock"}), invariants=INVS)))
     res = dc.mc_batch(c, jobs)
     behs = res["simulate (spec -> code)"].printed("BEH")
@@ -99,7 +99,7 @@ def run(c):
     nb, differ = model(c, runs)
     laps = {"model+replay_s": round(time.time() - t0, 1)}
     progs = programs(rnd, 14 if c.quick else 250)
-    deadline = time.time() + (10 if c.quick else 500)
+    deadline = time.time() + (10 if c.quick else 300)
     explored = dc.explore_into(runs, c, progs, 6 if c.quick else 150, 4 if c.quick else 40, deadline, bound=1 if c.quick else 2,
                                max_steps=2500)
     laps["explore_s"] = round(time.time() - t0 - laps["model+replay_s"], 1)
